@@ -47,6 +47,8 @@ def run(ctx, tier):
         ctx.rule(r, t)
     ctx.rule("P6", "(second copy of the PATH set) path_signature_table flags exactly the bytes of the path percent-encode set: "
                    "no byte outside 0x21..0x7E is copied verbatim by the prepared-path shortcuts")
+    ctx.rule("P8", "(shared with C10.H9) the IPv6 parsers store the address the literal denotes: the overlapping move of the pieces "
+                   "behind '::' runs from the last piece down (otherwise the serialised address re-parses to a different one)")
     ctx.rule("P7", "both ASCII lower-casing kernels (the one on the host parsers' cheap path and the one inside the IDNA route) "
                    "lower-case exactly A-Z, lane by lane: the two routes give the same host, so the href re-parses to itself")
     cfgs = C.configs_for(tier, thorough=["release", "devchecks", "amalgamated", "nopattern"])
@@ -57,6 +59,8 @@ def run(ctx, tier):
         C.check_path_signature(ctx, fxs[name], "P6")
         from rules import swar
         swar.check(ctx, fxs[name], "P7")
+        from rules import c10 as _c10
+        _c10.check_ipv6_move(ctx, fxs[name], "P8")
 
 
 def check(ctx, fx):
